@@ -19,7 +19,7 @@ func init() { checks["C18"] = c18 }
 func c18(args []string) {
 	c := chk.New("C18", "exploration", args)
 	c.Build(false)
-	c.Rule("[two members per producing task: both out-ports of the upstream process wired into one sub-stream] [path shapes] sub-streams whose members mix relative, parent-relative and absolute paths (command and Go-function consumers): all members, arrival order, each readable from the task's working directory, each an Upstream key; src(n) -> 1 or 2 upstream processes (random task durations) -> recorder -> StreamToSubStream -> task with {i:x|join:SEP}: sub-stream lengths {0,1,2,B,B+1,3B} for SCIPIPE_BUFSIZE B in {1,3} (thorough also 128), separators {' ', ',', ':', ' -I ', '.and.', '..'} (and, printed by printf, separators containing a newline; the same joined port used three times in one command with different modifiers; a Go function writing through OutIP().Write() in a task with a joined in-port; two sub-streams reaching one joined in-port with default output names; the same file arriving twice on one sub-stream; a sub-stream fed by a hand-written component instead of StreamToSubStream; members that carry tags of their own), maxConcurrentTasks in {1,4}; without modifiers the task command is vcmd, which opens every path it was given from its working directory; with modifiers (%.txt, s/x/y/, basename; written behind or in front of the join directive) the command is an echo and only the strings are judged; oracle: exactly one start event of the joining process, the member paths in its argv == the sequence the recorder in front of the sub-stream saw (arrival order), all readable, the recorded command contains them joined by exactly SEP with modifiers applied to each member, audit Upstream keys == member paths and each names the upstream task; plus close storms: 2-8 one-file sources fan into a StreamToSubStream, built and run 1500-3000 times inside one child process (hooks passive in most of them) - exactly one sub-stream must come out per run. distinct_nontrivial = distinct (length, B, separator, modifiers, fan-in, config) cases")
+	c.Rule("[carrier through MapToTags] in every fifth case the carrier of the sub-stream passes a tagging component before the joining process; [two members per producing task: both out-ports of the upstream process wired into one sub-stream] [path shapes] sub-streams whose members mix relative, parent-relative and absolute paths (command and Go-function consumers): all members, arrival order, each readable from the task's working directory, each an Upstream key; src(n) -> 1 or 2 upstream processes (random task durations) -> recorder -> StreamToSubStream -> task with {i:x|join:SEP}: sub-stream lengths {0,1,2,B,B+1,3B} for SCIPIPE_BUFSIZE B in {1,3} (thorough also 128), separators {' ', ',', ':', ' -I ', '.and.', '..'} (and, printed by printf, separators containing a newline; the same joined port used three times in one command with different modifiers; a Go function writing through OutIP().Write() in a task with a joined in-port; two sub-streams reaching one joined in-port with default output names; the same file arriving twice on one sub-stream; a sub-stream fed by a hand-written component instead of StreamToSubStream; members that carry tags of their own), maxConcurrentTasks in {1,4}; without modifiers the task command is vcmd, which opens every path it was given from its working directory; with modifiers (%.txt, s/x/y/, basename; written behind or in front of the join directive) the command is an echo and only the strings are judged; oracle: exactly one start event of the joining process, the member paths in its argv == the sequence the recorder in front of the sub-stream saw (arrival order), all readable, the recorded command contains them joined by exactly SEP with modifiers applied to each member, audit Upstream keys == member paths and each names the upstream task; plus close storms: 2-8 one-file sources fan into a StreamToSubStream, built and run 1500-3000 times inside one child process (hooks passive in most of them) - exactly one sub-stream must come out per run. distinct_nontrivial = distinct (length, B, separator, modifiers, fan-in, config) cases")
 	c.Assume("with two upstream processes the arrival order is whatever the recorder saw; it is not predicted")
 	rng := c.Rand("c18")
 	type job struct {
@@ -96,8 +96,16 @@ func c18(args []string) {
 			}
 		}
 		s.Procs = append(s.Procs, jn)
-		s.Conns = append(s.Conns, &spec.Conn{From: "REC.out", To: "SS.in"}, &spec.Conn{From: "SS.substream", To: "JN.in"})
-		desc := map[string]interface{}{"length": j.n, "bufsize": j.b, "separator": sepStr, "modifiers": j.mods, "fan_in": j.fanin, "max": j.max, "cfg": j.cfg, "spec": s}
+		viaTags := i%5 == 3
+		if viaTags {
+			// the carrier of the sub-stream passes a tagging component on its way to the joining process: it still carries
+			// the sub-stream when it arrives
+			s.Procs = append(s.Procs, &spec.Proc{Name: "TG", Kind: spec.KMapToTags, Tags: []*spec.TagRule{{Key: "batch", Rule: "const:b1"}}})
+			s.Conns = append(s.Conns, &spec.Conn{From: "REC.out", To: "SS.in"}, &spec.Conn{From: "SS.substream", To: "TG.in"}, &spec.Conn{From: "TG.out", To: "JN.in"})
+		} else {
+			s.Conns = append(s.Conns, &spec.Conn{From: "REC.out", To: "SS.in"}, &spec.Conn{From: "SS.substream", To: "JN.in"})
+		}
+		desc := map[string]interface{}{"length": j.n, "bufsize": j.b, "separator": sepStr, "modifiers": j.mods, "fan_in": j.fanin, "max": j.max, "cfg": j.cfg, "spec": s, "carrier_through_maptotags": viaTags}
 		res := execSpec(c, root, s, j.cfg, bh, false, 0)
 		if res.Hang != "" {
 			if strings.HasPrefix(res.Hang, "deadlock") {
